@@ -2,18 +2,22 @@
 (* all argument vectors up to MaxLen over the value table x every call kind *)
 EXTENDS MSFfi
 CONSTANTS MaxLen, ValIdx
-VARIABLES args, call, call2, args2, spell, done
+VARIABLES args, call, call2, args2, spell, where, done
 (* how the library is named: an absolute path, or a relative name that contains a backslash (an ordinary
    file-name character on this platform; the name must reach the loader unchanged) *)
 Spells == {"plain", "backslash"}
-Init == args = <<>> /\ call = "" /\ call2 = "" /\ args2 = <<>> /\ spell = "plain" /\ done = FALSE
-Next == \/ (~done /\ Len(args) < MaxLen /\ \E v \in ValIdx : args' = Append(args, v) /\ UNCHANGED <<call, call2, args2, spell, done>>)
-        \/ (~done /\ \E f \in Calls, sp \in Spells : call' = f /\ spell' = sp /\ done' = TRUE /\ UNCHANGED <<args, call2, args2>>)
+(* where the first foreign call runs: in the module function, inside a bytecode function called from it, or as the last
+   instruction before `ret` of such a function (its result / error then crosses a bytecode call boundary); what the program
+   prints does not depend on it *)
+Wheres == {"module", "fn", "tail"}
+Init == args = <<>> /\ call = "" /\ call2 = "" /\ args2 = <<>> /\ spell = "plain" /\ where = "module" /\ done = FALSE
+Next == \/ (~done /\ Len(args) < MaxLen /\ \E v \in ValIdx : args' = Append(args, v) /\ UNCHANGED <<call, call2, args2, spell, where, done>>)
+        \/ (~done /\ \E f \in Calls, sp \in Spells, w \in Wheres : call' = f /\ spell' = sp /\ where' = w /\ done' = TRUE /\ UNCHANGED <<args, call2, args2>>)
         \/ (~done /\ Len(args) <= 2 /\ \E f \in Calls \ {"probe_fail", "missing_symbol", "missing_library"}, f2 \in Calls, a2 \in {<<>>, <<6>>} :
-              call' = f /\ call2' = f2 /\ args2' = a2 /\ done' = TRUE /\ UNCHANGED <<args, spell>>)
+              call' = f /\ call2' = f2 /\ args2' = a2 /\ done' = TRUE /\ UNCHANGED <<args, spell, where>>)
 (* the property on the specification: after a failed call nothing more is printed *)
 NoOutputAfterFailure == done => LET e == Expected([args |-> args, call |-> call, call2 |-> call2, args2 |-> args2]) IN
                                  e.status = "failed" => (\A k \in 1..Len(e.out) : e.out[k] # "after")
-EmitCase == done => PrintT("CASE " \o ToJson([args |-> args, call |-> call, call2 |-> call2, args2 |-> args2, spell |-> spell,
+EmitCase == done => PrintT("CASE " \o ToJson([args |-> args, call |-> call, call2 |-> call2, args2 |-> args2, spell |-> spell, where |-> where,
                                                vals |-> [k \in 1..Len(args) |-> Vals[args[k]]], vals2 |-> [k \in 1..Len(args2) |-> Vals[args2[k]]]]))
 =============================================================================
